@@ -1595,16 +1595,18 @@ func (z *Decimal) round(sbit uint) {
 	}
 	// z.form == finite && len(z.mant) > 0
 	// m > 0 implies z.prec > 0 (checked by validate)
-	m := uint32(len(z.mant)) // present mantissa length in words
+	// (64-bit arithmetic: a mantissa may hold more than 2**32 digits, and
+	// z.prec + _DW - 1 may exceed MaxPrec)
+	m := uint64(len(z.mant)) // present mantissa length in words
 	digits := m * _DW
-	if digits <= z.prec {
+	if digits <= uint64(z.prec) {
 		// mantissa fits => nothing to do
 		return
 	}
 
 	// digits > z.prec: mantissa too large => round
 	verifHit(verifSiteRound)
-	r := uint(digits - z.prec - 1) // rounding digit position r >= 0
+	r := uint(digits - uint64(z.prec) - 1) // rounding digit position r >= 0
 	rdigit := z.mant.digit(r)      // rounding digit
 
 	if sbit == 0 && (rdigit == 0 || z.mode == ToNearestEven) {
@@ -1615,14 +1617,14 @@ func (z *Decimal) round(sbit uint) {
 	sbit &= 1 // be safe and ensure it's a single bit
 
 	// cut off extra words
-	n := (z.prec + (_DW - 1)) / _DW // mantissa length in words for desired precision
+	n := (uint64(z.prec) + (_DW - 1)) / _DW // mantissa length in words for desired precision
 	if m > n {
 		copy(z.mant, z.mant[m-n:]) // move n last words to front
 		z.mant = z.mant[:n]
 	}
 
 	// determine number of trailing zero digits (ntz) and compute lsd of mantissa's least-significant word
-	ntz := uint(n*_DW - z.prec) // 0 <= ntz < _W
+	ntz := uint(n*_DW - uint64(z.prec)) // 0 <= ntz < _W
 	lsd := pow10(ntz)
 
 	// round if result is inexact
